@@ -130,6 +130,7 @@ def plan(tier):
     shards += [{"family": "sinks", "part": p, "parts": 4} for p in range(4)]
     shards += H.plan_shards(['nested-revisions'])
     shards.append({"family": "strict-sinks"})
+    shards += [{"family": "scale", "part": p, "parts": 4} for p in range(4)]
     return shards
 
 
@@ -141,6 +142,11 @@ def cases(shard, tier):
         yield from H.cases_of(shard)
         return
     fam = shard["family"]
+    if fam == "scale":
+        for i in range(len(scale_texts())):
+            if i % shard["parts"] == shard["part"]:
+                yield {"kind": "scale", "i": i}
+        return
     if fam == "strict-sinks":
         for i in range(len(STRICT_SINKS)):
             yield {"kind": "strict-sink", "i": i}
@@ -502,7 +508,71 @@ def check_strict_sinks(case, R):
             R.outcome("strict-sink-rejected")
 
 
+# ---------------------------------------------------------------------------------------------------------------
+# beyond three of everything: dozens of constants per section (re-declared in the response), more than a hundred set literals /
+# parenthesised expressions / distinct literals in one definition
+def scale_texts():
+    out = []
+    for n in (9, 16, 17, 20, 40):
+        for layout in ("message", "service"):
+            lines, expect = [], []
+            for sec, base in (("req", 0), ("rsp", 100)) if layout == "service" else (("req", 0),):
+                if sec == "rsp":
+                    lines += ["@sealed", "---"]
+                for i in range(n):
+                    lines.append("uint16 K%02d = %d" % (i, base + i))
+                lines.append("@print K00 + K%02d" % (n - 1))
+                expect.append((len(lines), Fraction(2 * base + n - 1)))
+                lines.append("@print " + " + ".join("K%02d" % i for i in range(n)))
+                expect.append((len(lines), Fraction(n * base + n * (n - 1) // 2)))
+                lines.append("uint16 SUM = K%02d * 2 + K%02d" % (n // 2, n - 2))
+                lines.append("@print SUM")
+                expect.append((len(lines), Fraction(2 * (base + n // 2) + base + n - 2)))
+            lines.append("@sealed")
+            out.append(("constants-%d-%s" % (n, layout), "\n".join(lines) + "\n", expect))
+    for n in (40, 64, 65, 70, 130):
+        lines = ["@print {%d, %d}.max + {%d}.count" % (i, i + 1, i) for i in range(n)]
+        out.append(("set-literals-%d" % n, "\n".join(lines) + "\n@sealed\n", [(i + 1, Fraction(i + 2)) for i in range(n)]))
+        lines = ["@print ((%d) + (1)) * (2)" % i for i in range(n)]
+        out.append(("parentheses-%d" % n, "\n".join(lines) + "\n@sealed\n", [(i + 1, Fraction(2 * i + 2)) for i in range(n)]))
+    for n in (200, 1100, 2100):
+        lines = ["@print %d + %d.5" % (10000 + i, 20000 + i) for i in range(n)]
+        out.append(("distinct-literals-%d" % n, "\n".join(lines) + "\n@sealed\n", [(i + 1, Fraction(60001 + 4 * i, 2)) for i in range(n)]))
+    for n in (5, 9, 17, 33):  # long operator chains: left-associative - and /, right-associative **
+        terms = [str(i + 2) for i in range(n)]
+        v = Fraction(int(terms[0]))
+        for t in terms[1:]:
+            v -= int(t)
+        w = Fraction(int(terms[0]))
+        for t in terms[1:]:
+            w /= int(t)
+        out.append(("chains-%d" % n, "@print %s\n@print %s\n@print %s\n@sealed\n" % (" - ".join(terms), " / ".join(terms), " + ".join("%s * %s" % (a, b) for a, b in zip(terms, terms[1:]))),
+                    [(1, v), (2, w), (3, Fraction(sum(int(a) * int(b) for a, b in zip(terms, terms[1:]))))]))
+    return out
+
+
+def check_scale(case, R):
+    name, text, expect = scale_texts()[case["i"]]
+    R.case(["scale", name], nontrivial=True, sample=False)
+    prints, err, _res = read_text(text)
+    if err is not None:
+        R.violation("defined-expression-rejected:scale:%s" % err["cls"], "a defined expression evaluates to its mathematical value, however many constants / literals / sets the definition holds", {**case, "name": name}, observed=err)
+        return
+    got = dict(prints)
+    for line, v in expect:
+        try:
+            pv = parse_printed(got[line])
+        except Exception:  # noqa
+            pv = {"unparsable": got.get(line)}
+        if pv != {"q": [v.numerator, v.denominator]}:
+            R.violation("value-differs:scale:" + name.rsplit("-", 1 if "service" not in name and "message" not in name else 2)[0], "the result equals the mathematical value (identifiers denote the constants of their own section)", {**case, "name": name, "line": line}, observed=got.get(line), expected=str(v))
+            return
+    R.outcome("scale-ok")
+
+
 def check_case(case, R):
+    if case.get("kind") == "scale":
+        return check_scale(case, R)
     if case.get("kind") == "strict-sink":
         return check_strict_sinks(case, R)
     if case.get("kind") == "call-history":
